@@ -67,6 +67,12 @@ where
         self.yielded_counter.fetch_and_add(num_yielded)
     }
 
+    /// Marks the iteration as completed: the wrapped iterator has returned None and will not be polled again.
+    #[inline(always)]
+    pub(crate) fn mark_completed(&self) {
+        self.completed.store(true, atomic::Ordering::SeqCst);
+    }
+
     /// Guard to be held while the wrapped iterator is being used: if the use unwinds (the iterator's `next` panics),
     /// the concurrent iterator is marked as completed so that the threads waiting for their turn stop waiting.
     #[inline(always)]
@@ -129,8 +135,14 @@ where
         loop {
             let yielded_count = self.yielded_counter.current();
             match begin_idx.cmp(&yielded_count) {
-                // begin_idx==yielded_count => it is our job to provide the items
-                Ordering::Equal => return Some(begin_idx),
+                // begin_idx==yielded_count => it is our job to provide the items,
+                // unless the wrapped iterator has already returned None (it must not be polled again)
+                Ordering::Equal => {
+                    return match self.completed.load(atomic::Ordering::SeqCst) {
+                        true => None,
+                        false => Some(begin_idx),
+                    }
+                }
 
                 Ordering::Less => return None,
 
@@ -154,6 +166,10 @@ where
             match item_idx.cmp(&yielded_count) {
                 // item_idx==yielded_count => it is our job to provide the item
                 Ordering::Equal => {
+                    if self.completed.load(atomic::Ordering::SeqCst) {
+                        return None;
+                    }
+
                     // SAFETY: no other thread has the valid condition to iterate, they are waiting
                     let guard = self.complete_on_unwind();
                     let next = unsafe { self.mut_iter() }.next();
@@ -196,9 +212,13 @@ where
                 .collect::<Vec<_>>();
             guard.disarm();
 
+            // a chunk that could not be filled means that the wrapped iterator has returned None
+            if buffer.len() < n {
+                self.completed.store(true, atomic::Ordering::SeqCst);
+            }
+
             match buffer.len() {
                 0 => {
-                    self.completed.store(true, atomic::Ordering::SeqCst);
                     let older_count = self.progress_yielded_counter(n);
                     assert_eq!(older_count, begin_idx);
                     None
